@@ -93,7 +93,13 @@ var tmpls = map[string]tmpl{
 	// the poor consumer (130) addresses two providers whose discounted prices add up to 131: he can pay for the
 	// first request of a batch but not for the batch
 	"poorpair": {name: "poorpair", consumer: "V", providers: []string{"P1", "P3"}, timeout: 4, repeated: true, freq: 5, total: -1},
-	"mod":      {name: "mod", consumer: "U", providers: []string{"P1", "P2"}, timeout: 2, repeated: true, freq: 2, total: 2, module: true, threshold: 2},
+	// a module-owned context that is satisfied by one of its two providers (threshold below the provider count):
+	// the other request stays open until it is answered or expires
+	"mod1": {name: "mod1", consumer: "U", providers: []string{"P1", "P3"}, timeout: 4, repeated: true, freq: 4, total: 2, module: true, threshold: 1},
+	// a repeated context whose frequency exceeds its timeout: between the expiry of one batch and the start of the
+	// next the context waits in the new-batch queue only
+	"gap": {name: "gap", consumer: "U", providers: []string{"P1"}, timeout: 2, repeated: true, freq: 4, total: 3},
+	"mod": {name: "mod", consumer: "U", providers: []string{"P1", "P2"}, timeout: 2, repeated: true, freq: 2, total: 2, module: true, threshold: 2},
 }
 
 type mctx struct {
@@ -849,6 +855,10 @@ func (d *Driver) oneBlock(e *mc.Env, s *mc.State, dt time.Duration) []mc.Finding
 		}
 	}
 
+	// callbacks of the batches completed in this block are judged before the schedule bookkeeping below resets the
+	// per-batch output count for a batch that starts in the same block (frequency = timeout)
+	cbFs := d.countCallbacks(m, bo.Events, pre, post)
+
 	// ---- C08: schedule
 	for i := range m.ctxs {
 		c := &m.ctxs[i]
@@ -923,7 +933,7 @@ func (d *Driver) oneBlock(e *mc.Env, s *mc.State, dt time.Duration) []mc.Finding
 			fs = append(fs, mc.F("C08/one-shot-not-removed", "one-shot context %s still exists after end-block %d (batch at %d, timeout %d)", c.Tmpl, h, c.LastBatch, t.timeout))
 		}
 	}
-	fs = append(fs, d.countCallbacks(m, bo.Events, pre, post)...)
+	fs = append(fs, cbFs...)
 	return fs
 }
 
@@ -991,6 +1001,8 @@ func Parts(mode string) func() []mc.Part {
 				mc.ExplorePartC("fees", New(Variant{Name: "fees", Mode: mode, Tmpl: []string{"one", "rep", "poor"}, Withdraw: true}), 8, 10, true, rule, conf),
 				mc.ExplorePartC("deposits", New(Variant{Name: "deposits", Mode: mode, Tmpl: []string{"one"}, BindingOps: true}), 7, 9, true, rule, conf),
 				// a consumer who can pay for part of a batch only: nothing may be charged for requests that are not issued
+				// a module-owned context whose threshold is met before every provider has answered
+				mc.ExplorePart("fees-module-threshold", New(Variant{Name: "fees-module-threshold", Mode: mode, Tmpl: []string{"mod1"}}), 7, 9, true, rule),
 				mc.ExplorePart("fees-partial-funds", New(Variant{Name: "fees-partial-funds", Mode: mode, Tmpl: []string{"poorpair", "poor"}}), 6, 8, true, rule),
 			}
 		}
@@ -999,6 +1011,8 @@ func Parts(mode string) func() []mc.Part {
 				mc.ExplorePart("service-control", New(Variant{Name: "service-control", Mode: mode, Tmpl: []string{"rep", "one"}, ControlOps: true}), 7, 9, true, rule),
 				mc.ExplorePart("service-schedule", New(Variant{Name: "service-schedule", Mode: mode, Tmpl: []string{"rep", "poor", "mod"}}), 8, 11, true, rule),
 				mc.ExplorePart("service-schedule-at-height-252", New(Variant{Name: "service-schedule-at-height-252", Mode: mode, Tmpl: []string{"rep", "one"}, InitialHeight: 252}), 8, 10, true, rule),
+				// control operations while a context waits between two batches (frequency above the timeout)
+				mc.ExplorePart("service-control-between-batches", New(Variant{Name: "service-control-between-batches", Mode: mode, Tmpl: []string{"gap"}, ControlOps: true}), 8, 10, true, rule),
 				mc.ExplorePart("service-total-boundary", New(Variant{Name: "service-total-boundary", Mode: mode, Tmpl: []string{"rep1"}, ControlOps: true}), 7, 10, true, rule),
 			}
 		}
@@ -1006,6 +1020,8 @@ func Parts(mode string) func() []mc.Part {
 			mc.ExplorePartC("outcomes", New(Variant{Name: "outcomes", Mode: mode, Tmpl: []string{"one", "rep"}, ControlOps: true}), 7, 9, true, rule, conf),
 			mc.ExplorePartC("schedule", New(Variant{Name: "schedule", Mode: mode, Tmpl: []string{"rep", "poor"}}), 11, 13, true, rule, conf),
 			mc.ExplorePart("callbacks", New(Variant{Name: "callbacks", Mode: mode, Tmpl: []string{"mod"}}), 11, 13, true, rule),
+			mc.ExplorePart("control-between-batches", New(Variant{Name: "control-between-batches", Mode: mode, Tmpl: []string{"gap"}, ControlOps: true}), 8, 10, true, rule),
+			mc.ExplorePart("callbacks-threshold-below-providers", New(Variant{Name: "callbacks-threshold-below-providers", Mode: mode, Tmpl: []string{"mod1"}}), 8, 10, true, rule),
 			// two contexts addressing one provider whose deposit is exactly the minimum: both requests expire in one block
 			mc.ExplorePart("double-expiry", New(Variant{Name: "double-expiry", Mode: mode, Tmpl: []string{"one", "poor"}}), 6, 8, true, rule),
 			// heights are the keys of the batch queues: batches and expirations of this chain fall on 254..260
